@@ -197,6 +197,8 @@ def run_bounded(pid, tier):
         res_file = os.path.join(VERIF, 'replays', pid, f'bounded_{b["name"]}.json')
         env = dict(os.environ, PYTHONPATH=os.environ.get('PYVC_REPO_SRC', '/repo/src'))
         t0 = time.time()
+        if os.path.exists(res_file):
+            os.remove(res_file)         # (a script that dies must not be answered from the result of an earlier run)
         p = subprocess.run(['/venv/bin/python', os.path.join(VERIF, b['script'])] + b[tier] + [res_file],
                            capture_output=True, text=True, env=env, timeout=3000)
         info = {}
